@@ -433,9 +433,11 @@ pub fn variant(r: &mut StdRng, p: &Program, which: usize) -> (Program, String) {
             label = "chunk count field (old / new / both / old=0xFFFF)";
             for f in &mut q.frames {
                 let n = f.chunks.len();
-                let mut opts = vec!["both", "old_ffff"];
+                let mut opts = vec!["both"];
                 if n > 0 {
+                    // with an empty frame both fields are 0 in every encoding
                     opts.push("new");
+                    opts.push("old_ffff");
                 }
                 if n < 0xFFFF {
                     opts.push("old");
